@@ -164,13 +164,14 @@ func (w *World) project(ctx sdk.Context) St {
 		})
 	}
 	for _, c := range g.DispatcherGenesis.DispatchedCounts {
-		if c.Count > maxTLCInt {
-			panic(machineryError{"count outside TLC range"})
+		n := int64(maxTLCInt) // counts beyond TLC's range are the abstract value BIG
+		if c.Count < maxTLCInt {
+			n = int64(c.Count)
 		}
 		st.Cnt = append(st.Cnt, CntEntry{
 			Sp: protoName(c.SourceId.ProtocolId), Sc: c.SourceId.CounterpartyId,
 			Dp: protoName(c.DestinationId.ProtocolId), Dc: c.DestinationId.CounterpartyId,
-			N: int64(c.Count),
+			N: n,
 		})
 	}
 
